@@ -110,6 +110,8 @@ pub enum Op {
     PollDrop { op: Box<Op>, k: u8, settle_between: bool },
     /// C11: list every pooled topic's subscriptions and get every pooled subscription
     CheckLists,
+    /// one Publish request carrying `n` marker messages (large backlogs, long batches)
+    PublishMany { t: T, n: u32, a: bool },
     /// C17: a request with arbitrary field values
     Raw { req: Req, a: bool },
     /// C17: Publish to an arbitrary topic string
